@@ -10,7 +10,11 @@ Relations
            is handed to the readers AND to the model as text; contig names are C08_Region.enc numbers,
            so the model parses the text itself (htslib's rules, GenotypesPLINK's re.split or the
            repaired parser - switch STRICT_REGION_CONTIG_NAMES); contig names with ':' and '-' occur.
-           A width-boundary stream (read_boundary_cases) is part of every run.
+           A width-boundary stream (read_boundary_cases) is part of every run.  The iterator is observed by three
+           callers: one that converts each record to plain data before asking for the next, one that materialises
+           all records first (list(it)) and one that converts a record only after the iterator moved past it
+           (q["styles"]); and two read() calls are made on ONE object (restricted then everything, or the other way
+           round: q["again"]), the caller keeping the arrays of the first - every view must show the same.
   subset : Genotypes.subset(samples, variants) on an in-memory object
   seq    : one file (VCF/BCF or PGEN), read(), read(restricted), full.subset(what the restricted read
            returned), then 1-4 subset() calls on the loaded object (in place / copy and continue with
@@ -33,7 +37,7 @@ from .c07 import ALPH, Enc, build_obj, dump_obj, oerr
 
 PROP = "C08"
 CLAIMED = True
-COQ_MODULES = ["C08_Region", "C08_Check", "C08_Proofs", "C08_Proofs2", "C08_Proofs3"]
+COQ_MODULES = ["C08_Region", "C08_Check", "C08_Proofs", "C08_Proofs2", "C08_Proofs3", "C08_Proofs4"]
 PROPERTY_MODULE = "C08_Property"
 ALLOWED_AXIOMS = []
 RULE = (
@@ -50,7 +54,11 @@ RULE = (
     "IDs / no match / the empty set, max_variants 0..p+2, PGEN chunk sizes None,1..p+1; in every run the width-boundary "
     "stream: 127|128|255|256 and 129|257|300 samples, 1000|1001 samples, 255|256|257 variants with chunk sizes and "
     "max_variants beside them, max_variants 255..65536 over a 5-variant file, positions 2^31-3 and 2^31-2 with region "
-    "bounds on and beyond 2^31-1 (thorough: all of them). Non-trivial = the query "
+    "bounds on and beyond 2^31-1 (thorough: all of them); every iterator call is made three times - records converted "
+    "one at a time, all records materialised first (list(it)) then converted, each record converted after the iterator was "
+    "advanced past it (wide cases of the quick tier: one of the two holding styles) - and in 60% of the cases two read() "
+    "calls are made on one object (restricted then everything / everything then restricted), the arrays the first call "
+    "left being dumped again after the second. Non-trivial = the query "
     "restricts something (drops at least one row or column, or matches nothing). subset: objects of 1-5 x 0-6 with "
     "requested tuples that permute, repeat and contain unknown names; in every run objects of 129|257 samples resp. "
     "variants with requests on both sides of 127|128 and 255|256. seq: contents as for read (<= 6 variants, plain contig "
@@ -73,6 +81,8 @@ TRUSTED = [
     "variant index (C07 contracts); all exercised on every run",
     "the test files (.vcf.gz+.tbi or .bcf+.csi, .pgen/.pvar/.psam, .hap, .snplist, summary statistics) are written with "
     "pysam / pgenlib / plain text by the harness, not with haptools",
+    "the harness converts a Record / the arrays of an object to plain Python data at the moment stated for the view "
+    "(at once, after list(it), after the next record was asked for, after the second read())",
     "harness transposes haptools' sample-major array to variant-major rows; strings are interned per case, except contig "
     "names in read / cmdfmt, which are written as C08_Region.enc numbers (theorem C08_contig_enc_injective)",
     "cmdfmt: the harness wraps Genotypes.read / GenotypesPLINK.read to record the arguments a command hands to the reader "
@@ -103,6 +113,10 @@ ASSUMPTIONS = [
     "file is read with the sample / ID / max_variants restrictions only) - except in the class vcf-unindexed-region-given, "
     "where it is given all the same: an exception from both read() and the iterator is accepted (AssertionError 'error "
     "loading tabix/csi index'), a result would have to be the right one; the PGEN reader gets every query",
+    "what a reader handed out belongs to the caller: a record of the iterator still shows its variant after the iterator "
+    "was advanced or exhausted, the arrays a read() left are not changed by a later read() on the same object, and a "
+    "read() on an object that was read before returns what it returns on a fresh object (an exception in one view of a "
+    "call counts as the same only as an exception in the other)",
     "seq: a subset() call made on the object of a VCF read that matched nothing (array of shape (0, 0, 0) beside the "
     "samples found) is checked like every other subset() since fix 09a826e (switch "
     "STRICT_SUBSET_AFTER_EMPTY_READ, on by default); calls made on an object with duplicate names (left by a request that "
@@ -488,17 +502,74 @@ def observe(cls, path, q, kw):
     except Exception as e:  # noqa
         out["read"] = {"err": err_kind(e), "cls": type(e).__name__, "msg": str(e)[:160]}
     out["warned"] = h.n > 0
-    try:
+    # the iterator, as three callers see it: (0) every record converted to plain data before the next one is asked
+    # for; (1) all records materialised first (list(it)), converted afterwards; (2) a record converted only after the
+    # iterator was advanced past it.  A record that points into a buffer the iterator fills again shows in (1) and (2).
+    def conv(rec):
+        v = rec.variants
+        return [[str(v["id"]), str(v["chrom"]), int(v["pos"]), [str(a) for a in v["alleles"].item()]],
+                np.asarray(rec.data).astype(np.int64).tolist()]
+
+    def iterate(style):
+        try:
+            r = cls(Path(path), log=quiet, **kw)
+            it = r.__iter__(**args)
+            if style == 0:
+                recs = [conv(rec) for rec in it]
+            elif style == 1:
+                kept = list(it)
+                recs = [conv(rec) for rec in kept]
+            else:
+                recs, prev = [], None
+                for rec in it:
+                    if prev is not None:
+                        recs.append(conv(prev))
+                    prev = rec
+                if prev is not None:
+                    recs.append(conv(prev))
+            return {"ok": {"samples": [str(s) for s in r.samples], "recs": recs}}
+        except Exception as e:  # noqa
+            return {"err": err_kind(e), "cls": type(e).__name__, "msg": str(e)[:160]}
+
+    out["iter"] = iterate(0)
+    out["held"] = [iterate(int(st)) for st in iter_styles(q)]
+    # two read() calls on ONE object, the caller keeping what the first one left: "rf" = restricted, then everything;
+    # "fr" = everything, then restricted
+    order = read_again(q)
+    if order is not None:
+        import types
+
+        calls = [dict(max_variants=q["max"], **args), {}]
+        if order == "fr":
+            calls.reverse()
+        ag = {"order": order}
         r = cls(Path(path), log=quiet, **kw)
-        recs = []
-        for rec in r.__iter__(**args):
-            v = rec.variants
-            recs.append([[str(v["id"]), str(v["chrom"]), int(v["pos"]), [str(a) for a in v["alleles"].item()]],
-                         np.asarray(rec.data).astype(np.int64).tolist()])
-        out["iter"] = {"ok": {"samples": [str(s) for s in r.samples], "recs": recs}}
-    except Exception as e:  # noqa
-        out["iter"] = {"err": err_kind(e), "cls": type(e).__name__, "msg": str(e)[:160]}
+        kept = None
+        try:
+            r.read(**calls[0])
+            ag["first"] = {"ok": dump_obj(r)}
+            kept = types.SimpleNamespace(data=r.data, variants=r.variants, samples=r.samples)
+        except Exception as e:  # noqa
+            ag["first"] = {"err": err_kind(e), "cls": type(e).__name__, "msg": str(e)[:160]}
+        try:
+            r.read(**calls[1])
+            ag["second"] = {"ok": dump_obj(r)}
+        except Exception as e:  # noqa
+            ag["second"] = {"err": err_kind(e), "cls": type(e).__name__, "msg": str(e)[:160]}
+        ag["kept"] = ag["first"] if kept is None else {"ok": dump_obj(kept)}
+        out["again"] = ag
     return out
+
+
+def iter_styles(q):
+    """the consumption styles, beside convert-at-once, in which the iterator of this case is observed
+    (1 = materialise first, 2 = convert after advancing); inputs written before the key existed: both"""
+    return [int(x) for x in q.get("styles", [1, 2])]
+
+
+def read_again(q):
+    """order of the two read() calls made on one object ('rf' restricted then full, 'fr' full then restricted, None)"""
+    return q.get("again", "rf")
 
 
 def selects(c, q):
@@ -657,10 +728,24 @@ class Read(Relation):
 
     def generate(self, rng, n, tier):
         out = read_boundary_cases(rng, tier)
+        # callers that hold on to records / arrays (iter_styles, read_again): the wide cases of the quick tier are
+        # observed in one further consumption style and, half of them, with a second read on the same object
+        for case in out:
+            c, q = case["content"], case["q"]
+            cells = len(c["samples"]) * len(c["variants"])
+            if tier == "thorough":
+                q["styles"], q["again"] = [1, 2], str(rng.choice(["rf", "fr"]))
+            else:
+                q["styles"] = [int(rng.integers(1, 3))]
+                q["again"] = str(rng.choice(["rf", "fr"])) if cells <= 1200 and rng.random() < 0.5 else None
         for i in range(n):
             sp = rng.random() < 0.3
             c = gen_content(rng, special=1.0 if sp else 0.0, dup_ids=0.03)
-            out.append({"content": c, "q": gen_query(rng, c, special=True)})
+            q = gen_query(rng, c, special=True)
+            q["styles"] = [1, 2]
+            r = rng.random()
+            q["again"] = "rf" if r < 0.3 else "fr" if r < 0.6 else None
+            out.append({"content": c, "q": q})
         return out
 
     def exhaustive(self, tier):
@@ -737,11 +822,15 @@ class Read(Relation):
         def fobs(o):
             if o is None:
                 e = f"(Err {oerr(obs)})"
-                return f"(mkfo {e} {e} false {e})"
+                return f"(mkfo {e} {e} false {e} [] None)"
             from .c07 import seq_compact
             rec = lambda r: f"({E.variant(r[0])}, {seq_compact([E.call(x) for x in r[1]])})"
-            it = L.res(o["iter"], lambda x: f"({E.samples(x['samples'])}, {L.lst(x['recs'], rec)})")
-            return f"(mkfo {E.rgeno(o['full'])} {E.rgeno(o['read'])} {L.b(o['warned'])} {it})"
+            itobs = lambda i: L.res(i, lambda x: f"({E.samples(x['samples'])}, {L.lst(x['recs'], rec)})")
+            held = "[" + "; ".join(itobs(i) for i in o.get("held", [])) + "]"
+            ag = o.get("again")
+            again = "None" if ag is None else (f"(Some (mkrr {L.b(ag['order'] == 'fr')} {E.rgeno(ag['first'])} "
+                                               f"{E.rgeno(ag['kept'])} {E.rgeno(ag['second'])}))")
+            return f"(mkfo {E.rgeno(o['full'])} {E.rgeno(o['read'])} {L.b(o['warned'])} {itobs(o['iter'])} {held} {again})"
 
         ok = isinstance(obs, dict) and "vcf" in obs
         forced = vcf_forced(c, q)
@@ -754,6 +843,10 @@ class Read(Relation):
 
     def classes(self, inp, obs):
         out = selects(inp["content"], inp["q"])[0]
+        out.append("iter-held-styles=" + ",".join({1: "materialised-first", 2: "converted-after-advancing"}.get(x, str(x))
+                                                   for x in iter_styles(inp["q"])))
+        out.append("read-again=" + {"rf": "restricted-then-everything", "fr": "everything-then-restricted",
+                                    None: "no"}[read_again(inp["q"])])
         if isinstance(obs, dict) and "vcf" in obs:
             for fmt in ("vcf", "pgen"):
                 for k in ("read", "iter"):
@@ -768,6 +861,11 @@ class Read(Relation):
                 yield {"content": c, "q": dict(q, **{key: None})}
         if q["region"] is not None and q["region"][1] is not None:
             yield {"content": c, "q": dict(q, region=[q["region"][0], None, None])}
+        if read_again(q) is not None:
+            yield {"content": c, "q": dict(q, again=None)}
+        st = iter_styles(q)
+        for j in range(len(st)):
+            yield {"content": c, "q": dict(q, styles=st[:j] + st[j + 1:])}
         p, n = len(c["variants"]), len(c["samples"])
         if p > 1:
             for j in range(p):
@@ -784,6 +882,9 @@ class Read(Relation):
 
     def mutate(self, inp, rng):
         c, q = inp["content"], inp["q"]
+        for order in ("rf", "fr"):
+            yield {"content": c, "q": dict(q, styles=[1, 2], again=order)}
+            yield {"content": c, "q": dict(q, styles=[1, 2], again=order, region=None, samples=None, ids=None, max=None)}
         for ids in ([], ["nope"]):
             yield {"content": c, "q": dict(q, ids=ids)}
         for ctg in sorted({v[1] for v in c["variants"]}) + ["4"]:
@@ -824,6 +925,21 @@ class Read(Relation):
             for k in ("full", "read", "iter"):
                 if "err" in o[k]:
                     parts.append(f"{fmt} {k} raised {o[k].get('cls')}")
+        # what a caller sees that holds on to records / arrays
+        strip = lambda o: o.get("ok", "raised") if isinstance(o, dict) else o
+        for fmt in ("vcf", "pgen"):
+            o = obs[fmt]
+            names = {1: "materialised first (list(it))", 2: "converted after the iterator was advanced"}
+            for st, h in zip(iter_styles(inp["q"]), o.get("held", [])):
+                if strip(h) != strip(o["iter"]):
+                    parts.append(f"{fmt} iterator: records {names.get(st, st)} differ from records converted one at a time")
+            ag = o.get("again")
+            if ag:
+                a, b = ("full", "read") if ag["order"] == "fr" else ("read", "full")
+                if strip(ag["kept"]) != strip(ag["first"]):
+                    parts.append(f"{fmt}: the arrays left by a read() changed when read() was called again on the object")
+                if strip(ag["first"]) != strip(o[a]) or strip(ag["second"]) != strip(o[b]):
+                    parts.append(f"{fmt}: a second read() on the same object differs from the read on a fresh object")
         what = "; ".join(parts) if parts else "restricted read / iterator / other format differs from full read + subset"
         nosamp = inp["q"]["samples"] is not None and not (set(inp["q"]["samples"]) & set(inp["content"]["samples"]))
         sep = inp["q"]["region"] is not None and has_sep(inp["q"]["region"][0])
@@ -1716,7 +1832,9 @@ LEVEL_TEXT = (
     "file order and IS the model's subset() of the full read by the selected samples and IDs in file order "
     "(C08_read_eq_full_then_subset_vcf/_pgen), an empty match is an empty result and never an error, the iterator yields "
     "the records of the bulk read, max_variants returns a prefix, both formats are the same function of the content "
-    "(C08_vcf_pgen_same_content) and therefore every command that looks at nothing but what was loaded returns the same "
+    "(C08_vcf_pgen_same_content; the model's iterator is a list of values, so a caller that holds on to records sees what a "
+    "caller sees that converts each at once: C08_iter_styles_coincide / _list, C08_iter_shared_cell_refuted for an iterator "
+    "over one shared cell) and therefore every command that looks at nothing but what was loaded returns the same "
     "result for either format (C08_command_same_result), subset returns the requested order, and any sequence of subset() "
     "calls equals one subset() of the original object by the names the sequence leaves (C08_subset_seq_one; a repeated name "
     "makes the next call raise, C08_subset_after_repeats). The region is modelled as the TEXT the readers get, at character "
@@ -1725,7 +1843,8 @@ LEVEL_TEXT = (
     "(C08_region_string_vcf / _pgen, C08_vcf_read_by_string / C08_pgen_read_by_string), the parser of the tree as it is "
     "only for names without ':' and '-' (C08_region_parse_legacy_plain; C08_legacy_region_refuted). The model is tied to "
     "/repo on every run: each generated content is written as VCF/BCF (indexed when its order allows) and as .pgen with "
-    "pysam/pgenlib directly; haptools' full, restricted and streaming reads of both files, read()+subset(), sequences of "
+    "pysam/pgenlib directly; haptools' full, restricted and streaming reads of both files (the iterator consumed in three "
+    "styles, two reads on one object), read()+subset(), sequences of "
     "in-place and copying subset() calls on the loaded object, and runs of transform / ld / simphenotype / clump on both "
     "files are compared with the model and checked against the property inside Coq."
 )
